@@ -130,6 +130,9 @@ func GenProperty(w *Writer, prop string, t Tier, seed uint64) error {
 			}},
 		})
 	case "C02":
+		if err := GenPredGrid(w, t.Thorough); err != nil {
+			return err
+		}
 		return runEvalPlans(w, r, t, []evalPlan{
 			{fam: "pred", doc: docDefault, gen: func(g *ExprGen, d *Doc, r *Rng) (Expr, int) {
 				g.Cfg.Preds = 9
@@ -202,6 +205,9 @@ func GenProperty(w *Writer, prop string, t Tier, seed uint64) error {
 			}},
 		})
 	case "C04":
+		if err := GenConvGrid(w); err != nil {
+			return err
+		}
 		return runEvalPlans(w, r, t, []evalPlan{
 			{axes: SimpleAxes, fam: "conv", doc: numericDoc, gen: func(g *ExprGen, d *Doc, r *Rng) (Expr, int) {
 				g.Cfg.Texts = DefaultTexts
@@ -250,6 +256,9 @@ func GenProperty(w *Writer, prop string, t Tier, seed uint64) error {
 			}},
 		})
 	case "C05":
+		if err := GenCompareGrid(w); err != nil {
+			return err
+		}
 		return runEvalPlans(w, r, t, []evalPlan{
 			{axes: SimpleAxes, fam: "cmp", doc: numericDoc, gen: func(g *ExprGen, d *Doc, r *Rng) (Expr, int) {
 				g.Cfg.Texts = DefaultTexts
@@ -291,6 +300,9 @@ func GenProperty(w *Writer, prop string, t Tier, seed uint64) error {
 			}},
 		})
 	case "C06":
+		if err := GenArithGrid(w); err != nil {
+			return err
+		}
 		return runEvalPlans(w, r, t, []evalPlan{
 			{axes: SimpleAxes, fam: "arith", doc: numericDoc, gen: func(g *ExprGen, d *Doc, r *Rng) (Expr, int) {
 				return g.Num(2), g.Start
@@ -311,6 +323,9 @@ func GenProperty(w *Writer, prop string, t Tier, seed uint64) error {
 			}},
 		})
 	case "C07":
+		if err := GenSubstringGrid(w); err != nil {
+			return err
+		}
 		return runEvalPlans(w, r, t, []evalPlan{
 			{axes: SimpleAxes, fam: "strfn", doc: docDefault, gen: func(g *ExprGen, d *Doc, r *Rng) (Expr, int) {
 				g.Cfg.Texts = []string{"", "a", "abc", "12345", "é𝄞x", "a  b \t c", " a ", " x ", "--aaa--", "é", "1999/04/01", "/", "ab", "ba", " ", "ABC"}
